@@ -116,7 +116,7 @@ def build_unit(u, tier, wd, extra_defs=()):
     igb = os.path.join(wd, "u.i.gb")
     cmd = ["goto-instrument", "--no-malloc-may-fail", "--dfcc", u["harness"]]
     if u.get("enforce"):
-        cmd += ["--enforce-contract", u["enforce"]]
+        cmd += ["--enforce-contract-rec" if u.get("enforce_rec") else "--enforce-contract", u["enforce"]]
     for r in u.get("replace", []):
         cmd += ["--replace-call-with-contract", r]
     if u.get("loop_contracts"):
@@ -147,6 +147,8 @@ def cbmc_cmd(u, tier, binary, extra=()):
         cmd += ["--unwind", str(uw), "--unwinding-assertions"]
     for k, v in u.get("unwindset", {}).items():
         cmd += ["--unwindset", "%s:%d" % (k, v)]
+    if u.get("unwindset") and not uw:
+        cmd += ["--unwinding-assertions"]
     if u.get("plain"):
         cmd += ["--drop-unused-functions"]
     cmd += list(u.get("cbmc_extra", [])) + list(extra)
